@@ -43,6 +43,12 @@ CHECKS = {
          "initiation, peer-up (4/2-octet AS, add-path), route monitoring (pre/post policy, ignore-pre / ignore-post / ignored-ASN configurations, multi-NLRI, withdrawals, fragmentation), statistics, peer-down, termination, connection loss and reconnects over 2-4 peers in up to 3 VRFs; after every message each per-VRF table must equal the model (announced and not withdrawn by up peers), recording observers registered on the tables must hold exactly the tables' content, and after a session end no route, neighbour or observer-held path may remain and the message loop must have returned"),
  "C29": ("ribsim", "5/C29", "deterministic simulation runtime: source histories against a route -> advertiser-set model, concurrent sources under the gate scheduler",
          "2-4 sources call MergedLocRIB's client interface (the gRPC stream is stubbed): advertisements including repeated ones, withdrawals and source drops, sequentially and concurrently (one caller per source, interleaved at lock boundaries); the underlying Loc-RIB must contain a route iff the model's advertiser set is non-empty"),
+ "C31": ("isissim", "5/C31", "deterministic simulation on the mock clock: scripted hello sequences against an adjacency reference model (three-way handshake, holding time, removal)",
+         "the real IS-IS server on simulated interfaces (ethernet factory, device updater and package clock seams; mock clock moved only by the plan; product locks and map order under the simulator): one or two scripted neighbours per interface send hellos whose three-way TLV lists the DUT, another system, another circuit, state Down or is missing, with holding times 3/9/30 s, interleaved with clock advances of 0.2..125 s, link events and silence. After every step: Up only if the neighbour's most recent hello listed this system and circuit and the holding time has not passed (one checker period tolerated); Up whenever such a hello arrived on an existing adjacency; a neighbour that stays silent is gone 120 s after it went down whether or not it was ever Up; whenever the local LSP was regenerated it lists exactly the Up adjacencies"),
+ "C32": ("isissim", "5/C32", "deterministic simulation on the mock clock: LSP / CSNP / PSNP sequences against an executable ISO 10589 update-process model (database, SRM/SSN flags, transmissions at the 5 s ticks)",
+         "two scripted level 2 neighbours (adjacency kept Up by hellos) send LSPs (sequence 1..6, lifetimes 20..1200 s, also copies of the DUT's own LSP), CSNPs and PSNPs listing same / older / newer / unknown LSPs while the clock advances up to 1900 s. After every step the DUT's database (sequence numbers, lifetimes within 2 s) and its SRM/SSN flags per circuit (overlay accessor) must equal the reference model of ISO 10589 7.3.15-7.3.16, the LSPs and PSNP entries sent at every 5 s tick must be exactly the ones flagged, the own LSP must always be present with lifetime > 0 (refresh) and above any copy received from the network"),
+ "C33": ("isissim", "5/C33", "deterministic simulation with fault injection: seeded link up/down sequences on active and passive interfaces, from every initial device state",
+         "1-2 active and optionally a passive IS-IS interface start with a device that is up, down or not known yet; up to 6 link events (also redundant ones) interleaved with clock advances and hellos; afterwards every active interface is brought up and a neighbour performs the handshake. No panic in DeviceUpdate / Start / AddInterface / the API or any server goroutine (a crash is a violation), every event returns, hellos are sent again after the last link-up and the adjacency reaches Up"),
  "C05": ("bgpsim", "5/C05", "deterministic simulation: stage-wise reference import model over seeded histories with session flaps",
          "seeded simulated histories (announce / implicit replace / withdraw, add-path RX on/off, iBGP/eBGP, accept/reject-some/rewriting import policies, clean session flaps and re-establishment, fragmentation, delay) against the real FSMs and tables; at every quiescent checkpoint the Loc-RIB paths of each source must equal reference-import(actual Adj-RIB-In dump)"),
  "C06": ("bgpsim", "5/C06", "deterministic simulation: generator-labelled ineligible announcements, invariant after every step",
